@@ -89,3 +89,24 @@ Theorem C10_full_step_weight_conserved :
   vsum ROps (map (fun k => ebase k) kids) + es_weight ROps s' = es_weight ROps s.
 Proof. exact step_es_weight_conserved. Qed.
 Print Assumptions C10_full_step_weight_conserved.
+
+(* ... and over ANY number of passes of one trajectory (Model/Traj.run_es): everything it has handed to children so far plus
+   what it still holds is what it started with.  es_rates_ok says that a pass in which the index moves has a non-zero total
+   rate (the code divides by it) *)
+Theorem C10_full_run_weight_conserved :
+  forall n m dt (ds : list (sdata (T:=R))) d (s sf : estate (T:=R)) kids,
+  run_es ROps n m dt ds s = (sf, kids) ->
+  wf_stack (S d) (est s) -> (eiz s <= length (est s))%nat -> es_rates_ok n m dt ds s ->
+  vsum ROps (map (fun k => ebase k) kids) + es_weight ROps sf = es_weight ROps s.
+Proof. intros n m dt ds d s sf kids H1 H2 H3 H4. exact (run_es_weight_conserved n m dt ds d s sf kids H1 H2 H3 H4). Qed.
+Print Assumptions C10_full_run_weight_conserved.
+
+(* non-vacuity: a two-node stack with weights 1/4 and 3/4 is well formed *)
+Definition C10_es_stack : list (node (T:=R)) := [Node (/ 4) (/ 4) [] 1; Node (3 / 4) (3 / 4) [] 2].
+Example C10_es_witness : wf_stack 1 C10_es_stack /\ (0 <= length C10_es_stack)%nat.
+Proof.
+  split; [|cbn; lia]. unfold C10_es_stack. cbn. right. repeat split.
+  - repeat constructor; cbn; lra.
+  - lra.
+  - repeat constructor; cbn; lia.
+Qed.
